@@ -84,6 +84,10 @@ pub enum Damage {
     Zero { from: usize, len: usize },
     /// replace the k-th varint field (length / count / size / index) by another value
     Inflate { field: usize, value: i64 },
+    /// container files: rewrite block `block` consistently - declared object count `count`, payload
+    /// cut to `keep_permille`/1000 of its bytes, byte size and marker matching - so that the block
+    /// is well-framed but declares more (or fewer) objects than it holds
+    BlockRewrite { block: usize, count: i64, keep_permille: u32 },
 }
 
 impl Damage {
@@ -96,6 +100,7 @@ impl Damage {
             Damage::Drop { .. } => "drop_range",
             Damage::Zero { .. } => "zero_range",
             Damage::Inflate { .. } => "inflate_length_field",
+            Damage::BlockRewrite { .. } => "rewrite_block_count_vs_content",
         }
     }
 }
@@ -250,6 +255,20 @@ fn apply(bytes: &mut Vec<u8>, fields: &[usize], d: &Damage) {
                 let l = (*len).min(n - f);
                 bytes[f..f + l].iter_mut().for_each(|b| *b = 0);
             }
+        }
+        Damage::BlockRewrite { block, count, keep_permille } => {
+            let Some(l) = refimpl::parse_file(bytes) else { return };
+            if l.blocks.is_empty() {
+                return;
+            }
+            let b = &l.blocks[block % l.blocks.len()];
+            let keep = (b.payload_len as u64 * (*keep_permille).min(1000) as u64 / 1000) as usize;
+            let mut nb = vec![];
+            refimpl::put_long(&mut nb, *count);
+            refimpl::put_long(&mut nb, keep as i64);
+            nb.extend_from_slice(&bytes[b.payload_start..b.payload_start + keep]);
+            nb.extend_from_slice(&l.marker);
+            bytes.splice(b.start..b.end, nb);
         }
         Damage::Inflate { field, value } => {
             if fields.is_empty() {
@@ -878,6 +897,13 @@ impl Property for C05 {
         };
         let approx_len = 64 + 64 * nd;
         let mut damages = vec![];
+        if matches!(artefact, Artefact::Container { .. }) && dr.chance(1, 4) {
+            damages.push(Damage::BlockRewrite {
+                block: dr.usize_below(4),
+                count: *dr.pick(&[1i64, 1, 2, 3, 5, 64, 1000, 0, -1]),
+                keep_permille: *dr.pick(&[0u32, 0, 500, 1000, 1000, 999]),
+            });
+        }
         for _ in 0..nd {
             damages.push(match dr.below(10) {
                 0 => Damage::Truncate(dr.usize_below(approx_len * 8)),
